@@ -118,4 +118,20 @@ def install() -> None:
 
     processing.process_resource_event = tapped_process_resource_event  # type: ignore[assignment]
 
+    from kopf._core.intents import causes
+    orig_detect = causes.detect_changing_cause
+
+    def tapped_detect_changing_cause(**kwargs: Any) -> Any:
+        cause = orig_detect(**kwargs)
+        sim = core.CURRENT
+        if sim is not None:
+            raw_event = kwargs.get('raw_event') or {}
+            meta = (raw_event.get('object') or {}).get('metadata') or {}
+            sim.log('cause', _loop_name(), meta.get('uid'), str(getattr(cause.reason, 'value', cause.reason)),
+                    bool(cause.initial), raw_event.get('type'), meta.get('resourceVersion'),
+                    kwargs.get('old') is not None, bool(kwargs.get('diff')))
+        return cause
+
+    causes.detect_changing_cause = tapped_detect_changing_cause  # type: ignore[assignment]
+
     _installed_for = kopf.__file__
